@@ -112,6 +112,19 @@ Proof.
   rewrite Ea, Eb in Cr. rewrite Rmult_plus_distr_l, Cr. ring.
 Qed.
 
+(* the functional of a plane parallel to u through A and B is proportional to
+   x |-> det(B - A, x - A, u) *)
+Lemma plane_through_det (u A B x m : rvec) (p : rplane) :
+  dot (snd p) u = 0 -> on_plane A p -> on_plane B p ->
+  det3 (vsub B A) m u * pf p x = det3 (vsub B A) (vsub x A) u * dot (snd p) m.
+Proof.
+  intros Hu HA HB. change (pf p A = 0) in HA. change (pf p B = 0) in HB.
+  rewrite (pf_shift p A B) in HB. rewrite (pf_shift p A x), HA, Rplus_0_l.
+  pose proof (cramer4 (vsub B A) m u (vsub x A) (snd p)) as Cr.
+  rewrite Hu in Cr. assert (E : dot (snd p) (vsub B A) = 0) by lra. rewrite E in Cr.
+  rewrite Cr. ring.
+Qed.
+
 (* ---------- one hexagon seen from one of its vertices ---------- *)
 Section Local.
   Context (c u q0 q1 q2 q3 q4 q5 : rvec).
@@ -281,6 +294,16 @@ Section Local.
     - apply Hnb. apply (perp_three_zero ea eb u); assumption.
   Qed.
 
+  Lemma centre_off_side : 0 < det3 (vsub q1 q0) (vsub c q1) u.
+  Proof.
+    destruct turns as (K0 & K1 & K2).
+    assert (E : det3 (vsub q1 q0) (vsub c q1) u = A).
+    { unfold A, p0, p1.
+      destruct q0 as [[a0 b0] c0], q1 as [[a1 b1] c1], c as [[cx cy] cz], u as [[u1 u2] u3].
+      unfold det3, dot, cross, vsub, vx, vy, vz; cbn. ring. }
+    rewrite E. lra.
+  Qed.
+
   Lemma indep_adjacent : det3 (vsub q1 q0) (vsub q2 q1) u <> 0.
   Proof. lra. Qed.
 
@@ -420,6 +443,12 @@ Section Global.
   Lemma G_skip k : det3 (vsub (wv (k + 1)) (wv k)) (vsub (wv (k + 3)) (wv (k + 2))) u <> 0.
   Proof.
     exact (indep_skip c u (wv k) (wv (k + 1)) (wv (k + 2)) (wv (k + 3)) (wv (k + 4)) (wv (k + 5))
+             (Hsym k) (S1k k) (S2k k) (Hturn k) (T1k k) (T2k k)).
+  Qed.
+
+  Lemma G_centre k : 0 < det3 (vsub (wv (k + 1)) (wv k)) (vsub c (wv (k + 1))) u.
+  Proof.
+    exact (centre_off_side c u (wv k) (wv (k + 1)) (wv (k + 2)) (wv (k + 3)) (wv (k + 4)) (wv (k + 5))
              (Hsym k) (S1k k) (S2k k) (Hturn k) (T1k k) (T2k k)).
   Qed.
 
@@ -573,6 +602,47 @@ Section Full.
       destruct Hm as [E|E].
       + apply (Hbey k1 ltac:(lia) E). exact I1.
       + apply (Hbey (k1 + 1)%nat ltac:(lia) E). exact I2.
+  Qed.
+
+  (* the translation across side a (sheared along the axis or not) carries
+     the plane listed for the opposite side onto the plane listed for side a *)
+  Theorem across_carries_plane i i' (nrm q : rvec) :
+    (i < 6)%nat -> (i' < 6)%nat -> side_at l i' = sm (side_at l i) 3 ->
+    dot u nrm <> 0 ->
+    on_plane q (pl i') -> on_plane (vadd q (proj_par u nrm (across c w (side_at l i)))) (pl i).
+  Proof.
+    intros Hi Hi' Eopp Hn Hq. set (a := side_at l i) in *.
+    pose proof (listing_side_lt l i Hl Hi) as La. fold a in La.
+    (* plane i through wv (a+5), wv a; plane i' through wv (a+2), wv (a+3) *)
+    assert (Ea : side_at l i = sm a 0) by (fold a; unfold sm; rewrite Nat.add_0_r, Nat.mod_small; lia).
+    destruct (thr i a 0 Hi Ea) as (A0 & A1 & A2). rewrite Nat.add_0_r in A1, A2.
+    destruct (thr i' a 3 Hi' Eopp) as (B0 & B1 & B2).
+    replace (wv (a + 3 + 5)) with (wv (a + 2)) in B1 by (symmetry; replace (a + 3 + 5)%nat with (a + 2 + 6)%nat by lia; apply wv_shift6).
+    set (t := proj_par u nrm (across c w a)).
+    destruct (proj_par_meaning u nrm (across c w a) Hn) as (_ & (s & Es) & _). fold t in Es.
+    (* symmetry: wv (a+3) = 2c - wv a, wv (a+2) = 2c - wv (a+5) *)
+    pose proof (Hsym a) as Sa.
+    assert (Sb : wv (a + 2) = vsub (vscale 2 c) (wv (a + 5))).
+    { pose proof (Hsym (a + 5)) as H. replace (wv (a + 5 + 3)) with (wv (a + 2)) in H; [exact H|].
+      symmetry. replace (a + 5 + 3)%nat with (a + 2 + 6)%nat by lia. apply wv_shift6. }
+    (* q on plane i': det (e', q - wv (a+2), u) = 0 *)
+    pose proof (plane_through_det u (wv (a + 2)) (wv (a + 3)) q (snd (pl i')) (pl i') B0 B1 B2) as Pb.
+    change (pf (pl i') q = 0) in Hq. rewrite Hq, Rmult_0_r in Pb.
+    assert (Nb : 0 < dot (snd (pl i')) (snd (pl i'))) by (apply dot_self_pos; apply nz; exact Hi').
+    assert (Db : det3 (vsub (wv (a + 3)) (wv (a + 2))) (vsub q (wv (a + 2))) u = 0) by nra.
+    (* plane i at q + t, with m = c - wv a *)
+    pose proof (plane_through_det u (wv (a + 5)) (wv a) (vadd q t) (vsub c (wv a)) (pl i) A0 A1 A2) as Pa.
+    pose proof (G_centre c u w Hsym Hturn (a + 5)) as Gc.
+    replace (wv (a + 5 + 1)) with (wv a) in Gc by (symmetry; replace (a + 5 + 1)%nat with (a + 6)%nat by lia; apply wv_shift6).
+    assert (Da : det3 (vsub (wv a) (wv (a + 5))) (vsub (vadd q t) (wv (a + 5))) u = 0).
+    { rewrite Es. unfold across. rewrite Sa, Sb in Db.
+      match type of Db with ?L = 0 =>
+        match goal with |- ?G = 0 => assert (E : G = - L) end end.
+      { generalize (wv a) (wv (a + 5)). intros [[x0 y0] z0] [[x5 y5] z5].
+        destruct c as [[cx cy] cz], q as [[q1 q2] q3], u as [[u1 u2] u3].
+        unfold det3, dot, cross, vadd, vsub, vscale, vx, vy, vz; cbn. ring. }
+      rewrite E, Db. ring. }
+    rewrite Da, Rmult_0_l in Pa. unfold on_plane. change (pf (pl i) (vadd q t) = 0). nra.
   Qed.
 
   (* C07, both pieces together: hexLatticeBaseVectors on the planes of a
@@ -760,4 +830,42 @@ Proof.
   rewrite E0, E1, E2. clear E0 E1 E2.
   rewrite !hexagon_of_xy, !comb_diff, det3_comb.
   do 6 (destruct r as [|r]; [cbn; nra|]). lia.
+Qed.
+
+(* a1 (resp. a2), as returned, carries the second-listed (fourth-listed) plane
+   onto the first-listed (third-listed) one: the neighbouring element lies
+   across the first-listed (third-listed) plane *)
+Theorem base_vector_carries_opposite_plane :
+  forall (c u : rvec) (w : nat -> rvec) (l : list nat) (surfs : list rsurf),
+  In l all_listings ->
+  (forall i, (i < 6)%nat -> carries u w (pl surfs i) (side_at l i)) ->
+  (forall i, (i < 6)%nat -> sd surfs i = planeSide RS c (pl surfs i) /\ sd surfs i <> 0%Z) ->
+  (forall k, wv w (k + 3) = vsub (vscale 2 c) (wv w k)) ->
+  ((forall k, 0 < det3 (vsub (wv w (k + 1)) (wv w k)) (vsub (wv w (k + 2)) (wv w (k + 1))) u) \/
+   (forall k, det3 (vsub (wv w (k + 1)) (wv w k)) (vsub (wv w (k + 2)) (wv w (k + 1))) u < 0)) ->
+  forall (nrm q : rvec), dot u nrm <> 0 ->
+    (on_plane q (pl surfs 1) -> on_plane (vadd q (proj_par u nrm (across c w (side_at l 0)))) (pl surfs 0)) /\
+    (on_plane q (pl surfs 3) -> on_plane (vadd q (proj_par u nrm (across c w (side_at l 2)))) (pl surfs 2)).
+Proof.
+  intros c u w l surfs Hl Hcarry Hsense Hsym Hturn nrm q Hn.
+  assert (Ho : side_at l 1 = sm (side_at l 0) 3 /\ side_at l 3 = sm (side_at l 2) 3).
+  { apply admissible_iff in Hl. unfold admissible in Hl.
+    apply andb_true_iff in Hl. destruct Hl as [Hl H3]. apply andb_true_iff in Hl. destruct Hl as [_ H1].
+    apply Nat.eqb_eq in H1. apply Nat.eqb_eq in H3. split; assumption. }
+  destruct Ho as [O1 O3].
+  destruct Hturn as [Hturn|Hturn].
+  - split; intros Hq.
+    + exact (across_carries_plane c u w l surfs Hl Hcarry Hsense Hsym Hturn 0 1 nrm q ltac:(lia) ltac:(lia) O1 Hn Hq).
+    + exact (across_carries_plane c u w l surfs Hl Hcarry Hsense Hsym Hturn 2 3 nrm q ltac:(lia) ltac:(lia) O3 Hn Hq).
+  - assert (Hcarry' : forall i, (i < 6)%nat -> carries (vneg u) w (pl surfs i) (side_at l i)).
+    { intros i Hi. destruct (Hcarry i Hi) as (H1 & H2 & H3). repeat split; try assumption.
+      rewrite dot_vneg_r, H3. ring. }
+    assert (Hturn' : forall k, 0 < det3 (vsub (wv w (k + 1)) (wv w k)) (vsub (wv w (k + 2)) (wv w (k + 1))) (vneg u)).
+    { intros k. rewrite det3_vneg. specialize (Hturn k). lra. }
+    assert (Hn' : dot (vneg u) nrm <> 0) by (rewrite dot_vneg_l; lra).
+    split; intros Hq.
+    + rewrite <- (proj_par_neg_axis u nrm _ Hn).
+      exact (across_carries_plane c (vneg u) w l surfs Hl Hcarry' Hsense Hsym Hturn' 0 1 nrm q ltac:(lia) ltac:(lia) O1 Hn' Hq).
+    + rewrite <- (proj_par_neg_axis u nrm _ Hn).
+      exact (across_carries_plane c (vneg u) w l surfs Hl Hcarry' Hsense Hsym Hturn' 2 3 nrm q ltac:(lia) ltac:(lia) O3 Hn' Hq).
 Qed.
